@@ -670,9 +670,11 @@ def tie(ctx):
             calls = [ast.unparse(s) for s in fn.body]
             n_cls += 1
             has_mixin = any('claim_leading_comment' in c or 'claim_trailing_comment' in c for c in calls)
-            if has_mixin and not (calls[0] == 'self.claim_leading_comment(ignore_if_already_claimed=True)' and
-                                  calls[1] == 'self.claim_trailing_comment(ignore_if_already_claimed=True)'):
-                ctx.fail('tie', 'comments-tie', f'{p.name}: auto_claim_comments does not start with own leading, '
+            # own leading and own trailing come before the children (their mutual order is immaterial: they can
+            # never compete for the same comment)
+            if has_mixin and sorted(calls[:2]) != ['self.claim_leading_comment(ignore_if_already_claimed=True)',
+                                                   'self.claim_trailing_comment(ignore_if_already_claimed=True)']:
+                ctx.fail('tie', 'comments-tie', f'{p.name}: auto_claim_comments does not start with own leading / '
                          f'own trailing (ignore_if_already_claimed=True)', {'calls': calls[:3]})
     ctx.count('tie_generated_auto_claim_methods', n_cls)
 
